@@ -155,3 +155,27 @@ Theorem C16_finding_refused_growing_set_len :
   exists c' c'', cstep_f lim12 30 (Rabuf.mk_cache 8 2 None fdisk) (Rabuf.OSeek (Rabuf.SeekStart 20)) = FErr c' /\
     R c' (Rabuf.Flat 0 (fdisk ++ zeros 10)) /\ flush_f None c' = FOk c'' /\ Rabuf.k_disk c'' <> fdisk ++ zeros 10.
 Proof. exact ex_grow_ok_needed. Qed.
+
+(** AT BYTE LEVEL, THE MAP OVER THE CONCRETE BUFFER (Io_durable.v): after creation and ANY history of
+    the byte-level I/O model, the buffer of each of the three files - any configuration - may be
+    flushed any number of times under file-size limits that come and go; whatever those attempts
+    reported, the buffer still represents the file as the map layer left it, and a flush without
+    limit then puts exactly that file - the corresponding image of [render] of the current
+    record-level state - on the disk.  "A failed flush loses nothing", with the real I/O of the
+    map layer and the real failure paths of the buffer. *)
+From Aby Require Import Io Io_run Io_flat Io_flat_ro Io_cache Io_flat_upd Io_durable.
+
+Theorem C16_byte_level_failed_flushes_then_recovery_over_any_buffer : forall t n bk bv bh ops,
+  1 <= n -> pow2 n -> Forall (op_wf t) ops -> sized (Store.create t n) ops ->
+  exists s' m' (cf : Io.fid -> list call),
+    store_run (Store.create t n) ops = Ok (s', snd (spec_run ∅ ops)) /\
+    render s' = Ok (Io.images m') /\
+    forall f c fuel lims,
+      backs c (Io.get_file (Io.empty_st bk bv bh) f) ->
+      (xrun_fuel (Rabuf.k_cs c) (flat_of (Io.get_file (Io.empty_st bk bv bh) f)) (map call_op (cf f)) <= fuel)%nat ->
+      exists c1 outs,
+        Rabuf.crun fuel c (map call_op (cf f)) = Ok (c1, outs) /\
+        R (flush_attempts lims c1) (flat_of (Io.get_file (Io.m_st m') f)) /\
+        exists c3, flush_f None (flush_attempts lims c1) = FOk c3 /\
+                   Rabuf.k_disk c3 = Io.fb (Io.get_file (Io.m_st m') f).
+Proof. exact failed_flushes_then_recovery_over_any_buffer. Qed.
